@@ -99,14 +99,194 @@ def run_history(chk, da, rng, hid):
     _materialize._LOWER_CACHE.clear()
 
 
+RED_FUNCS = ["sum", "prod", "mean", "var", "std", "min", "max", "argmin", "argmax", "all", "any",
+             "nansum", "nanprod", "nanmean", "nanvar", "nanstd", "nanmin", "nanmax", "nanargmin", "nanargmax"]
+
+
+def fam_split_every(chk, da, rng):
+    """the answer of every tree reduction must not depend on split_every (keyword, config key, or the default): data with
+    NaN-only blocks, ties and signed zeros, more blocks along the reduced axes than the fan-in"""
+    import glob
+    import json
+    import os
+    corpus = []
+    for f in sorted(glob.glob(os.path.join(os.path.dirname(os.path.dirname(os.path.abspath(__file__))), "corpus", "C09", "*.json"))):
+        dd = json.load(open(f)).get("data", {})
+        if "fn" in dd and "data" in dd:
+            ch = dd["chunks"]
+            corpus.append((dd["fn"], np.array(dd["data"], dtype="float64"), tuple(tuple(c) if isinstance(c, list) else c for c in ch), dd["axis"]))
+    for it, (fn, data, chunks, axis) in enumerate(corpus):
+        with warnings.catch_warnings():
+            warnings.simplefilter("ignore")
+            want = getattr(np, fn)(data, axis=axis)
+        chk.count("split_every:corpus")
+        _split_every_case(chk, da, fn, data, chunks, axis, want, -1 - it)
+    n = 2000 if chk.tier == "thorough" else 240
+    for it in range(n):
+        ndim = rng.choice([1, 1, 2, 2, 3])
+        shape = tuple(rng.choice([5, 8, 12, 17, 20]) if d == 0 else rng.choice([2, 3, 6]) for d in range(ndim))
+        chunks = tuple(progs.rand_chunks_for(rng, s) if rng.random() < 0.4 else rng.choice([1, 2, 3]) for s in shape)
+        fn = RED_FUNCS[it % len(RED_FUNCS)]
+        data = np.asarray(np.random.RandomState(rng.randrange(2 ** 31)).randint(-3, 4, size=shape), dtype="float64")
+        if fn.startswith("nan") or rng.random() < 0.3:
+            flavour = rng.choice(["nan-block", "nan-scattered", "nan-prefix"])
+            if flavour == "nan-scattered":
+                data[np.random.RandomState(it).rand(*shape) < 0.4] = np.nan
+            else:
+                k = rng.randrange(1, shape[0])
+                if flavour == "nan-block":
+                    lo = rng.randrange(0, shape[0] - k + 1)
+                    data[lo:lo + k] = np.nan
+                else:
+                    data[:k] = np.nan
+                if ndim > 1 and fn.startswith("nanarg"):
+                    data[:, 0] = np.where(np.isnan(data[:, 0]), 1.0, data[:, 0])    # no all-NaN lane along axis 0 in column 0
+        axis = rng.choice([None, 0, 0, ndim - 1])
+        if fn in ("all", "any"):
+            data = np.nan_to_num(data)
+        with warnings.catch_warnings():
+            warnings.simplefilter("ignore")
+            try:
+                want = getattr(np, fn)(data, axis=axis)
+            except ValueError:
+                continue          # all-NaN slice: NumPy itself raises
+        _split_every_case(chk, da, fn, data, chunks, axis, want, it)
+
+
+def _split_every_case(chk, da, fn, data, chunks, axis, want, it):
+    shape, ndim = data.shape, data.ndim
+    results = {}
+    for how, k in [("default", None), ("kw", 2), ("kw", 3), ("kw", 4), ("config", 2), ("config", 3), ("kw", 64)]:
+        try:
+            with warnings.catch_warnings():
+                warnings.simplefilter("ignore")
+                x = da.from_array(data, chunks=chunks)
+                if how == "config":
+                    with dask.config.set(split_every=k):
+                        got = getattr(da, fn)(x, axis=axis).compute(scheduler="sync")
+                elif how == "kw":
+                    got = getattr(da, fn)(x, axis=axis, split_every=k).compute(scheduler="sync")
+                else:
+                    got = getattr(da, fn)(x, axis=axis).compute(scheduler="sync")
+            results[(how, k)] = ("ok", got)
+        except Exception as e:  # noqa: BLE001
+            results[(how, k)] = ("raises", err_sig(e))
+    chk.case(("split_every", fn, shape, repr(chunks), axis, it), nontrivial=True,
+             sample={"fn": fn, "shape": shape, "chunks": chunks, "axis": axis} if it < 2 else None)
+    chk.count("split_every:" + fn)
+    desc = {"fn": fn, "axis": axis, "chunks": chunks, "data": data.tolist(), "numpy": np.asarray(want).tolist()}
+    bad = []
+    for key, (st, got) in results.items():
+        if st == "raises":
+            bad.append((key, got))
+        elif not progs.values_equal(np.asarray(got, dtype="float64"), np.asarray(want, dtype="float64"))[0]:
+            bad.append((key, np.asarray(got).tolist()))
+        else:
+            chk.traces_validated += 1
+    if bad and len(bad) < len(results):
+        chk.violation(f"{fn}: the result depends on split_every: {bad[:3]} (the other settings agree with NumPy)", {**desc, "bad": repr(bad)},
+                      signature={"class": "split-every-dependence", "fn": fn,
+                                 # flat arg reduction over an N-D grid whose extremum occurs more than once (tie order = block-grid order)
+                                 "flat_nd_tie": bool(axis is None and ndim > 1 and "arg" in fn and
+                                                     int(np.sum(data == (np.nanmin(data) if "min" in fn else np.nanmax(data)))) > 1)})
+    elif bad:
+        chk.count("split_every:wrong-under-every-setting(not a C09 matter):" + fn)
+
+
+def fam_mutation_history(chk, da, rng):
+    """in-place updates of ONE collection object interleaved with materialisations (compute, keys, graph, persist-like reads):
+    the values after the update must not depend on whether / how the object was materialised before it"""
+    n = 400 if chk.tier == "thorough" else 60
+    for it in range(n):
+        shape = (rng.choice([6, 9, 12]),) if rng.random() < 0.5 else (rng.choice([4, 6]), rng.choice([3, 5]))
+        data = np.arange(int(np.prod(shape)), dtype="float64").reshape(shape) - 4
+        chunks = tuple(progs.rand_chunks_for(rng, s) for s in shape)
+        ups = []
+        for _ in range(rng.choice([1, 2, 3])):
+            kind = rng.choice(["mask", "mask-expr", "slice", "int", "ufunc-out"])
+            ups.append((kind, rng.randrange(-3, 8), rng.randrange(100)))
+        peeks = [rng.choice(["none", "compute", "keys", "graph", "derive", "compute-optimize-off"]) for _ in range(len(ups) + 1)]
+
+        def apply(x, v, up):
+            kind, a, b = up
+            if kind == "mask":
+                x[x > a] = -1.0
+                v[v > a] = -1.0
+            elif kind == "mask-expr":
+                x[(x + 1) % 3 == 0] = float(b)
+                v[(v + 1) % 3 == 0] = float(b)
+            elif kind == "mask-array-value":
+                x[x < a] = x * 2
+                v[v < a] = (v * 2)[v < a]
+            elif kind == "slice":
+                x[1:4] = float(b)
+                v[1:4] = float(b)
+            elif kind == "int":
+                x[0] = float(b)
+                v[0] = float(b)
+            else:
+                da.add(x, 1.0, out=x)
+                np.add(v, 1.0, out=v)
+
+        def peek(x, how):
+            if how == "compute":
+                x.compute(scheduler="sync")
+            elif how == "compute-optimize-off":
+                with dask.config.set({"array.optimize-graph": False}):
+                    x.compute(scheduler="sync")
+            elif how == "keys":
+                x.__dask_keys__()
+            elif how == "graph":
+                dict(x.__dask_graph__())
+            elif how == "derive":
+                (x + 1).compute(scheduler="sync")
+
+        try:
+            with warnings.catch_warnings():
+                warnings.simplefilter("ignore")
+                x, v = da.from_array(data.copy(), chunks=chunks) * 1.0, data.copy()
+                fresh = da.from_array(data.copy(), chunks=chunks) * 1.0
+                vf = data.copy()
+                for up, pk in zip(ups, peeks):
+                    peek(x, pk)
+                    apply(x, v, up)
+                    apply(fresh, vf, up)
+                peek(x, peeks[-1])
+                got = x.compute(scheduler="sync")
+                got_fresh = fresh.compute(scheduler="sync")
+                derived = (x + 1).compute(scheduler="sync")
+        except Exception as e:  # noqa: BLE001
+            chk.count("mutation:skipped-raises:" + err_sig(e)[:24])
+            continue
+        chk.case(("mutation-history", repr(ups), repr(peeks), shape, repr(chunks)), nontrivial=any(p != "none" for p in peeks),
+                 sample={"updates": ups, "materialised_before_each": peeks} if it < 2 else None)
+        for kind, _, _ in ups:
+            chk.count("mutation:" + kind)
+        desc = {"shape": shape, "chunks": chunks, "updates": ups, "materialised_before_each_update": peeks,
+                "got": np.asarray(got).tolist(), "never_materialised_twin": np.asarray(got_fresh).tolist(), "numpy": v.tolist()}
+        if not progs.values_equal(got, got_fresh)[0] or not progs.values_equal(derived, got_fresh + 1)[0]:
+            chk.violation("the value of a collection after in-place updates depends on whether it was materialised before them",
+                          desc, signature={"class": "mutation-history", "last_update": ups[-1][0]})
+        elif not progs.values_equal(got, v)[0]:
+            chk.count("mutation:differs-from-numpy-in-every-history(not a C09 matter)")
+        else:
+            chk.traces_validated += 1
+
+
 def run(chk: Check):
     import dask_array as da
     chk.rule = ("histories: 3-6 programs sharing sources and subtrees, 6-12 steps of build / compute / compute-fresh / drop in random "
                 "order, a random subset of the planner/optimizer options switched at every step (optimize-graph, rechunk threshold / "
                 "degree-limit / method, chunk-size, unify-chunks policy and limit; split_every varies inside the programs); every computed "
-                "value is compared with the history-free NumPy value; non-trivial = at least two computable members")
+                "value is compared with the history-free NumPy value; non-trivial = at least two computable members.  "
+                "split_every family: 20 reductions (incl. nan* and arg reductions) on NaN-block / tie data computed with the default fan-in, "
+                "split_every=2,3,4,64 by keyword and 2,3 by config key: all must give the NumPy value.  Mutation-history family: one "
+                "collection object updated in place (mask / slice / int setitem, ufunc out=) with compute / keys / graph / derive reads "
+                "interleaved, compared with a never-materialised twin")
     chk.run_proofs()
     model_family(chk, da)
+    fam_split_every(chk, da, chk.rng)
+    fam_mutation_history(chk, da, chk.rng)
     n = 2500 if chk.tier == "thorough" else 120
     for hid in range(n):
         run_history(chk, da, chk.rng, hid)
